@@ -56,7 +56,9 @@ def _same_column(c, name, X, r, ndim):
         c.oblige(name + ':same-elements', z3.Implies(z3.And(0 <= i, i < N), r.elem(i, z3.IntVal(0)) == X.elem(i, *zeros)), 'post')
 
 
-def units(tier):
+def validator_units(tier):
+    """the input validators (ensure_1d_with_singleton, ensure_vector, ensure_2d, ensure_equal_dims): also re-run by the checks whose
+    argument rests on them (C03)"""
     import emd.support as SP
     U = []
     obs = [{'kind': 'scalar', 'name': 'n'}, {'kind': 'scalar', 'name': 'm1'}, {'kind': 'scalar', 'name': 'm2'}, {'kind': 'scalar', 'name': 'm3'}]
@@ -142,6 +144,12 @@ def units(tier):
                  observables=[{'kind': 'scalar', 'name': nm} for nm in ('a0', 'a1', 'b0', 'b1', 'c0', 'c1')])
         u.frame = True
         U.append(u)
+    return U
+
+
+def units(tier):
+    import emd.support as SP
+    U = validator_units(tier)
 
     # ---- frame conditions on other entry points: reuse the harnesses of C10 / C11 / C13 with read-only inputs
     from contracts import C10, C11, C13, C01, C03, C04, C05, C07, C09, C14
